@@ -356,6 +356,20 @@ theorem seed_int_pure_empis {G : Type} (P : PRNG G) (st : Store G) (s : Int) (jo
     genEmpisSeq P st (.int s) jobs = some ((empisSeqPure P (P.seed s) jobs).1, st) := by
   simp [genEmpisSeq, toStream_int, genEmpisSeqOn_fresh]
 
+/-- **C14.h' `seed_list_entries_pure`** — list-valued seeds (`generate_dataset_from_prob_dists(…, [s₀, s₁, …])`): when every
+entry carries an integer seed, entry `i` is the data of a *fresh* generator for `sᵢ` — a function of `(sᵢ, probsᵢ, nᵢ)`
+alone, whatever the other entries are (equal seeds included) and whatever the store; the store is unchanged. -/
+theorem seed_list_entries_pure {G : Type} (P : PRNG G) (st : Store G) (jobs : List (Int × List Rat × Nat)) :
+    genDatasetArgs P st (jobs.map fun j => (SeedArg.int j.1, j.2.1, j.2.2)) =
+      some (jobs.map fun j => dataOfUniforms j.2.1 (drawN P (P.seed j.1) j.2.2).1, st) := by
+  induction jobs with
+  | nil => rfl
+  | cons j rest ih =>
+    simp only [List.map_cons, genDatasetArgs, seed_int_pure, ih]
+
+example : (genDatasetArgs tapePRNG ⟨⟨[], []⟩, []⟩ [(.int 3, [1/2, 1/2], 2), (.int 3, [1/2, 1/2], 2)]).map (·.1) =
+    some [[0, 0], [0, 0]] := by decide +kernel
+
 /-- spec pin for the dataset: schedule `k+1` continues the uniform stream where schedule `k` stopped -/
 theorem datasetPure_cons {G : Type} (P : PRNG G) (g : G) (probs : List Rat) (n : Nat) (rest : List (List Rat × Nat)) :
     datasetPure P g ((probs, n) :: rest) =
